@@ -73,6 +73,8 @@ type UserInfoEmail struct {
 type Bool bool
 
 func (bs *Bool) UnmarshalJSON(data []byte) error {
+	// a receiver that is decoded into again must not keep an earlier true
+	*bs = false
 	if string(data) == "true" || string(data) == `"true"` {
 		*bs = true
 	}
